@@ -70,8 +70,8 @@ REGISTRY = {
     "C05": dict(
         jobs=lambda tier, seed: (
             [("vf.props.nonherm", "c05", c) for c in configs.hermitian_configs(tier, hermitian=False)]
-            + [("vf.props.nonherm", "c05_vs_hermitian", dict(c, _vs=1)) for c in configs.hermitian_configs(tier, hermitian=True)
-               if c["max_order"] <= 3 or tier == "thorough"]
+            + [("vf.props.nonherm", "c05_vs_hermitian", dict(c, _vs=1, max_order=min(c["max_order"], 2) if (c.get("spectrum") in ("sym", "symdeg") and sum(c["sizes"]) >= 4) else c["max_order"]))
+               for c in configs.hermitian_configs(tier, hermitian=True) if c["max_order"] <= 3 or tier == "thorough"]
         ),
         job_of_config=lambda cfg: ("vf.props.nonherm", "c05_vs_hermitian" if cfg.get("_vs") else "c05"),
         technique="real block_diagonalize(hermitian=False) executed on symbolic general complex matrices (carrier B: complex symbolic/rational spectrum via callback solver; "
